@@ -126,22 +126,36 @@ def check_dump_entry(p, entry):
     return fails
 
 
+def _unbuildable(p):
+    try:
+        msggen.lib_payload(p)
+        return False
+    except Exception:
+        return True
+
+
 def check_message(case):
     """case = {'m': abstract message, 'enc': None | {'ks': int, 'iv': hex}}"""
     m = case['m']
     enc = case.get('enc')
     fails = []
-    if enc:
-        bits, integ, prf, sk_e, sk_a = c06.keys_for(enc['ks'])
-        crypto = c06.crypto_for(enc['ks'])
-        iv = bytes.fromhex(enc['iv'])
-        inner = m['payloads']
-        mm = dict(m, payloads=[], inner=inner)
-        ref = W.encode_protected(mm, {'sk_e': sk_e, 'sk_a': sk_a, 'integ': integ}, iv)
-        lib = msggen.lib_message(mm, crypto=crypto, iv=iv, inner=inner)
-    else:
-        ref = W.encode(m)
-        lib = msggen.lib_message(m)
+    try:
+        if enc:
+            bits, integ, prf, sk_e, sk_a = c06.keys_for(enc['ks'])
+            crypto = c06.crypto_for(enc['ks'])
+            iv = bytes.fromhex(enc['iv'])
+            inner = m['payloads']
+            mm = dict(m, payloads=[], inner=inner)
+            ref = W.encode_protected(mm, {'sk_e': sk_e, 'sk_a': sk_a, 'integ': integ}, iv)
+            lib = msggen.lib_message(mm, crypto=crypto, iv=iv, inner=inner)
+        else:
+            ref = W.encode(m)
+            lib = msggen.lib_message(m)
+    except A.IkeSaError as ex:
+        # the generator only draws content RFC 7296 section 3 allows (e.g. nonces of 16..256 octets): the payload classes must
+        # be able to express it
+        bad = next((p['t'] for p in m['payloads'] if _unbuildable(p)), '?')
+        return [Failure(f'construct-rejects-valid:{bad}', f'building the message from valid content raised {type(ex).__name__}: {ex}')]
     # (1) serialisation
     try:
         got = bytes(lib.to_bytes())
